@@ -51,6 +51,7 @@ var lines = []line{
 	{text: "02-00-00-00-0B-02 2001:DB8:0:0::2", mac: macB, ip: "2001:db8::2", fam: 6},
 	{text: "0200.0000.0a01 2001:db8::9", mac: macA, ip: "2001:db8::9", fam: 6},
 	{text: "# " + macC + " 10.0.0.3"},
+	{text: "#" + strings.Repeat("x", 70000)}, // a comment line longer than 64 KiB
 	{text: ""},
 	{text: macC, bad: true},
 	{text: macC + " 10.0.0.3 extra", bad: true},
